@@ -386,7 +386,8 @@ def cells(tier, seed):
                 for param in G_PARAMS:
                     yield {"kind": "gauss", "target": target, "param": param, "dim": dim, "cat": k,
                            "full_basis": bool(thorough or dim <= 3), "ngeneric": 4 if thorough else 2,
-                           "origins": bool(thorough or dim <= 3)}
+                           "origins": bool(thorough or dim <= 3),
+                           "sreps": ("cross" if thorough else "one") if dim <= 5 else ""}
         for e in G_SCALES:
             for dim in (G_SCALE_DIMS_THOROUGH if thorough else G_SCALE_DIMS):
                 for target in ("iso", "diag", "full", "band"):
@@ -400,7 +401,7 @@ def cells(tier, seed):
             for param in G_PARAMS:
                 yield {"kind": "gauss", "target": "int", "param": param, "dim": dim, "cat": k,
                        "means": "all" if thorough else "reduced", "full_basis": bool(dim <= 4), "ngeneric": 2,
-                       "origins": bool(dim <= 4)}
+                       "origins": bool(dim <= 4), "sreps": ("cross" if thorough else "one") if dim <= 4 else ""}
         for fam in FAMILIES:
             for ps in range(len(_PSETS[fam])):
                 yield {"kind": "fam", "family": fam, "pset": ps, "cat": k, "origins": "full" if (thorough or ps == 0) else "light"}
@@ -620,6 +621,8 @@ def _eval_gauss(cell, res):
                       ("list", "float", fvec.tolist(), fvec), ("list", "int", ivec.tolist(), fvec)]
         if cell.get("means") == "reduced":
             mean_forms = [m for m in mean_forms if m[1] == "int" or m[0] == "vector"]
+        if cell.get("sreps"):     # facet scalar-like representation of the (integer-valued) broadcast scalar mean
+            mean_forms += [("scalar:" + lab, "int", v, np.ones(dim)) for lab, v in _scalar_reps(1, True)[1:]]
         reps = ["float", "int"]
     else:
         struct = {"iso": "diagonal", "diag": "diagonal", "full": "full", "band": "banded"}[target]
@@ -629,6 +632,9 @@ def _eval_gauss(cell, res):
                       ("vector", None, mvec, mvec), ("list", None, mvec.tolist(), mvec), ("callable", None, None, mvec)]
         if cell.get("means") == "zero+vector":
             mean_forms = [m for m in mean_forms if m[0] in ("zero", "vector")]
+        if cell.get("sreps"):     # facet scalar-like representation of the broadcast scalar mean: directly / value the callable mean is conditioned on
+            mean_forms += [("scalar:" + lab, None, v, 0.75 * np.ones(dim)) for lab, v in _scalar_reps(0.75)[1:]]
+            mean_forms += [("callable:" + lab, None, v, 0.75 * np.ones(dim)) for lab, v in _scalar_reps(0.75)]
         reps = [None]
         Sigma = ctx["c"] * _target_cov(target, dim, k)
     for shape, fmt, struct in shapes:
@@ -648,12 +654,19 @@ def _eval_gauss(cell, res):
                         else:
                             data = _gauss_data(target, shape, fmt, param, factor, dim, k, e)
                             skey = ""
+                        # facet scalar-like representation of a scalar datum (directly / value the callable or None datum is conditioned on)
+                        sreps = [lab for lab, _ in _scalar_reps(1)] if (shape == "scalar" and cell.get("sreps")) else [None]
                         for passing in passings:
-                            for mkind, mrep, marg, mref in mean_forms:
-                                fac = {"obtained": "direct", "origin": "direct", "data": label, "path": path, "pass": passing, "mean": mkind, "factor": factor}
-                                if isint:
-                                    fac["rep"], fac["meanrep"] = rep, mrep
-                                _gauss_config(cuqi, res, tally, cell, fac, shape, data, marg, mref, Sigma, skey, ctx)
+                            for srep in (sreps if passing != "list" else sreps[:1]):
+                                for mkind, mrep, marg, mref in mean_forms:
+                                    if srep not in (None, "scalar") and ":" in mkind and cell.get("sreps") != "cross" and mkind.split(":")[1] != srep:
+                                        continue      # quick: at most one of datum / mean in a non-basic scalar-like form, or both in the same
+                                    fac = {"obtained": "direct", "origin": "direct", "data": label, "path": path, "pass": passing, "mean": mkind, "factor": factor}
+                                    if isint:
+                                        fac["rep"], fac["meanrep"] = rep, mrep
+                                    if srep is not None:
+                                        fac["srep"] = srep
+                                    _gauss_config(cuqi, res, tally, cell, fac, shape, data, marg, mref, Sigma, skey, ctx)
             finally:
                 cuqi.config.MIN_DIM_SPARSE = old
     tally.flush()
@@ -674,31 +687,35 @@ def _gauss_config(cuqi, res, tally, cell, fac, shape, data, marg, mref, Sigma, s
     isint = "rep" in fac
     cond, kwargs = {}, {}
     implied = mkind in ("vector", "list")
+    srep = fac.get("srep")
+
+    def _rep(v):      # the scalar v in the scalar-like representation of this configuration
+        return v if srep is None else dict(_scalar_reps(v, isinstance(v, int)))[srep]
     if passing == "array":
-        kwargs[param] = data
+        kwargs[param] = _rep(data)
         implied = implied or shape != "scalar"
     elif passing == "list":
         kwargs[param] = data.tolist() if isinstance(data, np.ndarray) else [data]
         implied = implied or shape != "scalar"
     elif passing == "callable":
         if fac.get("rep") == "int":
-            kwargs[param] = (lambda s, _d=data: s * _d)             # conditioned on the python int s = 1 later
-            cond["s"] = 1
+            kwargs[param] = (lambda s, _d=data: np.multiply(s, _d))             # conditioned on the python int s = 1 later
+            cond["s"] = _rep(1)
         else:
-            kwargs[param] = (lambda s, _d=data: (s / 2.0) * _d)      # conditioned on s = 2 later
-            cond["s"] = 2.0
+            kwargs[param] = (lambda s, _d=data: np.divide(s, 2.0) * _d)      # conditioned on s = 2 later
+            cond["s"] = _rep(2.0)
     else:
         kwargs[param] = None
-        cond[param] = data
-    if mkind == "callable":
+        cond[param] = _rep(data)
+    if mkind.startswith("callable"):
         kwargs["mean"] = (lambda mu: mu)
-        cond["mu"] = np.array(mref)
+        cond["mu"] = np.array(mref) if mkind == "callable" else marg
     else:
         kwargs["mean"] = marg
     if not implied or cond:
         kwargs["geometry"] = dim
     kwargs["name"] = "x"
-    res.state("/".join(str(fac[x]) for x in ("data", "path", "factor", "pass", "mean", "rep", "meanrep") if x in fac))
+    res.state("/".join(str(fac[x]) for x in ("data", "path", "factor", "pass", "srep", "mean", "rep", "meanrep") if x in fac))
     res.transitions += 1
     try:
         g0 = cuqi.distribution.Gaussian(**kwargs)
@@ -1203,6 +1220,161 @@ def _eval_family(cell, res):
                 finally:
                     cuqi.config.MIN_DIM_SPARSE = old
     tally.flush()
+    _family_scalar_likes(cuqi, cls, res, cell, fam)
+    _family_history(cuqi, cls, res, cell, fam)
+
+
+# ---- facet "scalar-like representation of a parameter" --------------------------------------------------------
+def _scalar_reps(v, integer=False):
+    """Every scalar-like representation of the number v: python scalar, numpy scalar, 0-d array, one-element 1-D
+    array, one-element list, (1,1) array - float-typed, or integer-typed for an integer-valued v.  All of them
+    broadcast over a multi-dimensional geometry exactly like the python scalar."""
+    if integer:
+        i = int(v)
+        if i != v:
+            raise AssertionError("harness self-check: integer representation of %r" % (v,))
+        return [("scalar", i), ("numpy-scalar", np.int64(i)), ("0-d", np.array(i)), ("1-array", np.array([i])),
+                ("1-list", [i]), ("1x1", np.array([[i]]))]
+    f = float(v)
+    return [("scalar", f), ("numpy-scalar", np.float64(f)), ("0-d", np.array(f)), ("1-array", np.array([f])),
+            ("1-list", [f]), ("1x1", np.array([[f]]))]
+
+
+SL_DIMS = [1, 2, 3]
+
+
+def _family_scalar_likes(cuqi, cls, res, cell, fam):
+    """Every parameter of the family (one at a time, and all together) in every scalar-like representation x dim
+    {1,2,3} x source of the dimension {geometry=dim with python scalars elsewhere, another parameter given as a
+    full vector} x {passed directly, value a callable parameter is conditioned on, value a None parameter is
+    conditioned on}.  Oracle: the documented density with the parameter broadcast to dim (a refusal is accepted)."""
+    ps, k = cell["pset"], cell["cat"]
+    isint = ps == "int"
+    tally = _Tally(res, fam, "")
+    names = [n for n, _ in _SPEC[fam]]
+    vecs = [n for n, kind in _SPEC[fam] if not kind.endswith("scalar")]
+    nreps = len(_scalar_reps(1, isint))
+    for dim in SL_DIMS:
+        sc, vec = _params(fam, ps, k, dim)
+        cache = {}
+        for p in names + (["all"] if len(names) > 1 else []):
+            targets = names if p == "all" else [p]
+            others = [q for q in vecs if q not in targets]
+            for dimsrc in ["geometry"] + (["other-parameter"] if others else []):
+                for via in (("direct", "callable", "none") if p != "all" else ("direct",)):
+                    for ri in range(nreps):
+                        kwargs, cond, eff = {"name": "x"}, {}, {}
+                        for n in names:
+                            kwargs[n], eff[n] = (int(sc[n]) if isint else float(sc[n])), np.full(dim, sc[n])
+                        if dimsrc == "geometry":
+                            kwargs["geometry"] = dim
+                        else:
+                            q = others[0]
+                            kwargs[q] = vec[q].astype(np.int64) if isint else vec[q].copy()
+                            eff[q] = vec[q]
+                        label = None
+                        for n in targets:
+                            label, value = _scalar_reps(sc[n], isint)[ri]
+                            if via == "direct":
+                                kwargs[n] = value
+                            elif via == "callable":
+                                kwargs[n] = (lambda hp: hp)
+                                cond["hp"] = value
+                            else:
+                                kwargs[n] = None
+                                cond[n] = value
+                        fac = {"obtained": "direct", "origin": "direct", "dim": "one" if dim == 1 else "multi", "srep": label,
+                               "sparam": p, "via": via, "dimsrc": dimsrc}
+                        tag = "scalar-like/%d/%s/%s/%s/%s" % (dim, p, label, via, dimsrc)
+                        res.state(tag)
+                        res.transitions += 1
+                        try:
+                            d0 = cls(**kwargs)
+                            d = d0(**cond) if cond else d0
+                            ddim = d.dim
+                        except Exception as e:
+                            res.refused += 1
+                            res.outcomes.add("%s:construct-refused:srep=%s:via=%s:%s" % (fam, label, via, type(e).__name__))
+                            continue
+                        if ddim != dim:
+                            res.refused += 1
+                            res.outcomes.add("%s:dim-%s-instead-of-%s:srep=%s:%s" % (fam, ddim, dim, label, dimsrc))
+                            continue
+                        Sigma = np.diag(eff["cov"]) if fam == "Lognormal" else None
+                        ckey = (dimsrc, others[0] if dimsrc != "geometry" else None)
+                        if ckey not in cache:
+                            cache[ckey] = (_fam_points(fam, eff, dim), {})
+                        (inside, outside), rcache = cache[ckey]
+                        R = {"inside": inside, "outside": outside, "cache": rcache, "eff": eff, "Sigma": Sigma, "dim": dim, "tag": tag,
+                             "light": "srep=%s:via=%s" % (label, via)}
+                        _family_observe(res, tally, cell, fam, fac, d0, d, cond, R, None)
+    tally.flush()
+
+
+# ---- facet "process history" ------------------------------------------------------------------------------------
+def _family_history(cuqi, cls, res, cell, fam):
+    """An object under test and a sibling of the SAME family and dimension but other hidden structure (other
+    parameter values / scalar-broadcast vs per-component parameters / image vs 1-D geometry) are built in one
+    process, in both orders; the first is used before the second is built; afterwards BOTH must show the documented
+    density of their own parameters.  (Detection of state shared between objects must not depend on which cells
+    happen to run in one worker process.)"""
+    ps, k = cell["pset"], cell["cat"]
+    isint = ps == "int"
+    tally = _Tally(res, fam, "")
+    vecs = [n for n, kind in _SPEC[fam] if not kind.endswith("scalar")]
+
+    def spec(dim, dl, kk, form, gkind):
+        sc, vec = _params(fam, ps, kk, dim)
+        kwargs, eff = {"name": "x"}, {}
+        for n, kind in _SPEC[fam]:
+            kwargs[n], eff[n] = (int(sc[n]) if isint else float(sc[n])), np.full(dim, sc[n])
+            if form == "vector" and n in vecs:
+                kwargs[n] = vec[n].astype(np.int64) if isint else vec[n].copy()
+                eff[n] = vec[n]
+        if gkind == "int":
+            kwargs["geometry"] = dim
+        elif gkind == "image2d":
+            kwargs["geometry"] = cuqi.geometry.Image2D((2, 2))
+        elif gkind == "discrete":
+            kwargs["geometry"] = cuqi.geometry.Discrete(dim)
+        return kwargs, eff
+
+    for dl in F_DIMS:
+        dim = 4 if dl == "2x2" else int(dl)
+        g0 = "image2d" if dl == "2x2" else "int"
+        forms = ["scalar", "vector"] if vecs else ["scalar"]
+        for form in forms:
+            target = (k, form, g0)
+            sibs = [("parameters", ((k + 1) % refs.K_CATALOGUES, form, g0)), ("geometry", (k, form, "int" if dl == "2x2" else "discrete"))]
+            if vecs:
+                sibs.append(("passing", (k, "vector" if form == "scalar" else "scalar", g0)))
+            for skind, sib in sibs:
+                for built in ("sibling-first", "target-first"):
+                    pair = [("sibling", sib), ("target", target)] if built == "sibling-first" else [("target", target), ("sibling", sib)]
+                    res.state("history/%s/%s/%s/%s" % (dl, form, skind, built))
+                    objs = []
+                    try:
+                        for role, (kk, fm, gk) in pair:
+                            res.transitions += 1
+                            kwargs, eff = spec(dim, dl, kk, fm, gk)
+                            d = cls(**kwargs)
+                            if d.dim != dim:
+                                raise ValueError("dimension %r" % (d.dim,))
+                            inside, outside = _fam_points(fam, eff, dim)
+                            res.transitions += 3
+                            d.logpdf(inside[0]), d.logd(inside[1]), d.pdf(inside[0])       # use the object before the next one exists
+                            objs.append((role, d, eff, inside, outside))
+                    except Exception as e:
+                        res.refused += 1
+                        res.outcomes.add("%s:history-refused:%s:%s" % (fam, skind, type(e).__name__))
+                        continue
+                    for role, d, eff, inside, outside in reversed(objs):       # the object built last first, then the earlier one again
+                        fac = {"obtained": "direct", "origin": "direct", "dim": "one" if dim == 1 else "multi", "sibling": skind,
+                               "built": built, "object": role}
+                        R = {"inside": inside, "outside": outside, "cache": {}, "eff": eff, "dim": dim, "tag": "history/%s" % skind,
+                             "Sigma": np.diag(eff["cov"]) if fam == "Lognormal" else None, "light": "history:%s" % skind}
+                        _family_observe(res, tally, cell, fam, fac, None, d, {}, R, None)
+    tally.flush()
 
 
 def _family_config(cuqi, cls, res, tally, cell, fam, fac, shapes, dim, dl, sc, vec):
@@ -1287,7 +1459,7 @@ def _family_observe(res, tally, cell, fam, fac, d0, d, cond, R, offset):
     origin = fac["origin"]
     direct = origin == "direct"
     full = direct and not R.get("light")      # complete point alphabet / input representations / quadrature
-    passing = fac["pass"]
+    passing = fac.get("pass")
     inside = R["inside"] if full else R["inside"][:(3 if direct else 2)]
     outside = R["outside"] if full else R["outside"][:2]
 
@@ -1520,6 +1692,34 @@ def _family_quadrature(res, tally, fac, d, fam, eff, light=False, with_pdf=True)
 # ========================================================================================
 # Markov random fields
 # ========================================================================================
+def _mrf_reference(fam, pd, N, bc, order):
+    """Reference structure of one MRF configuration: difference matrix, (GMRF) precision structure matrix with its
+    pseudo log-determinant and rank, tolerance."""
+    D = refs.fd_ref(N, bc, order, pd)
+    S = {"D": D, "tol": 1e-9 if (fam != "GMRF" or bc == "zero") else 1e-5}   # eps-regularised / iterative log-determinants of singular precisions: 1e-5 (DESIGN 1.4)
+    if fam == "GMRF":
+        dim = N if pd == 1 else N * N
+        S["P"] = D.T @ D
+        S["ld"], S["rank"], _ = refs.pseudo_logdet_rank(S["P"])
+        if dim - S["rank"] != refs.expected_nullity(N, bc, order, pd):
+            raise AssertionError("harness self-check: reference nullity for %s" % ((fam, pd, N, bc, order),))
+    return S
+
+
+def _mrf_ref_values(fam, S, hyper, lref, pts):
+    """Documented log-density of the finite differences of x - location at the points."""
+    rf = []
+    for x in pts:
+        r = x - lref
+        if fam == "GMRF":
+            rf.append(0.5 * (S["rank"] * (math.log(hyper) - LOG2PI) + S["ld"]) - 0.5 * hyper * float(r @ S["P"] @ r))
+        elif fam == "LMRF":
+            rf.append(float(np.sum(-np.log(2 * hyper) - np.abs(S["D"] @ r) / hyper)))
+        else:
+            rf.append(float(np.sum(np.log(hyper / np.pi) - np.log((S["D"] @ r) ** 2 + hyper ** 2))))
+    return np.array(rf)
+
+
 def _eval_mrf(cell, res):
     import cuqi
     fam, pd, N, k = (cell[x] for x in ("family", "pd", "N", "cat"))
@@ -1528,68 +1728,72 @@ def _eval_mrf(cell, res):
     geoms = [("int", N)] if pd == 1 else [("image2d", None), ("tuple2d", (N, N))]
     lvec = refs.dyadic_vec(dim, k + 2, scale=0.125)
     ivec = _int_mean(dim, k)
-    loc_forms = [("zero", 0.0, np.zeros(dim)), ("scalar", 0.5, 0.5 * np.ones(dim)), ("vector", lvec, lvec),
-                 ("list", lvec.tolist(), lvec), ("callable", None, lvec),
+    allforms = cell.get("intforms") == "all"
+    # location forms: (label, argument, value the callable location is conditioned on, reference vector, base form?)
+    loc_forms = [("zero", 0.0, None, np.zeros(dim), True), ("scalar", 0.5, None, 0.5 * np.ones(dim), True), ("vector", lvec, None, lvec, True),
+                 ("list", lvec.tolist(), None, lvec, True), ("callable", None, np.array(lvec), lvec, True),
                  # representation facet: integer-valued location as python int / integer dtype array
-                 ("int-scalar", 1, np.ones(dim)), ("int-vector", ivec, ivec.astype(float))]
+                 ("int-scalar", 1, None, np.ones(dim), True), ("int-vector", ivec, None, ivec.astype(float), True)]
+    # facet scalar-like representation: the broadcast scalar location in every scalar-like form, directly and as the
+    # value the callable location is conditioned on
+    for lab, v in _scalar_reps(0.5)[1:]:
+        loc_forms.append(("scalar:" + lab, v, None, 0.5 * np.ones(dim), False))
+    for lab, v in _scalar_reps(0.5):
+        loc_forms.append(("callable:" + lab, None, v, 0.5 * np.ones(dim), False))
+    if allforms:
+        for lab, v in _scalar_reps(1, True)[1:]:
+            loc_forms.append(("int-scalar:" + lab, v, None, np.ones(dim), False))
     hyper_f = [2.0, 0.5, 3.0][k] if fam == "GMRF" else [0.5, 2.0, 0.25][k]
     hyper_i = 2 + k                                   # integer-valued hyper-parameter (python int / integer dtype)
-    hyp_forms = ["float", "array1", "callable", "int"] if fam == "GMRF" else ["float", "callable", "int"]
-    if fam == "GMRF" and cell.get("intforms") == "all":
-        hyp_forms.append("int-array1")
+    # hyper-parameter forms: (label, argument, value the callable is conditioned on, value, base form?)
+    hyp_forms = [("float", hyper_f, None, hyper_f, True)]
+    if fam == "GMRF":
+        hyp_forms.append(("array1", np.array([hyper_f]), None, hyper_f, True))
+    hyp_forms += [("callable", None, hyper_f, hyper_f, True), ("int", int(hyper_i), None, float(hyper_i), True)]
+    if fam == "GMRF" and allforms:
+        hyp_forms.append(("int-array1", np.array([hyper_i]), None, float(hyper_i), True))
+    for lab, v in _scalar_reps(hyper_f)[1:]:
+        if not (fam == "GMRF" and lab == "1-array"):
+            hyp_forms.append(("scalar:" + lab, v, None, hyper_f, False))
+    for lab, v in _scalar_reps(hyper_f)[1:]:
+        hyp_forms.append(("callable:" + lab, None, v, hyper_f, False))
+    if allforms:
+        for lab, v in _scalar_reps(hyper_i, True)[1:]:
+            if not (fam == "GMRF" and lab == "1-array"):
+                hyp_forms.append(("int:" + lab, v, None, float(hyper_i), False))
     pts = [np.zeros(dim)] + [np.eye(dim)[:, i] for i in range(dim)] + [refs.dyadic_vec(dim, k), refs.dyadic_vec(dim, k + 3)]
     cls = getattr(cuqi.distribution, fam)
     locname = "mean" if fam == "GMRF" else "location"
     hypname = "prec" if fam == "GMRF" else "scale"
-    for bc, order in MRF_COMBOS:
-        if fam != "GMRF" and order != 1:
-            continue
-        if bc == "neumann" and N - order < 1:
-            continue
-        D = refs.fd_ref(N, bc, order, pd)
-        if fam == "GMRF":
-            P = D.T @ D
-            ld_ref, rank_ref, _ = refs.pseudo_logdet_rank(P)
-            if dim - rank_ref != refs.expected_nullity(N, bc, order, pd):
-                raise AssertionError("harness self-check: reference nullity for %s" % cell)
-        # eps-regularised / iterative log-determinants of singular precisions: 1e-5 (DESIGN 1.4)
-        tol = 1e-9 if (fam != "GMRF" or bc == "zero") else 1e-5
+    combos = [(bc, order) for bc, order in MRF_COMBOS if (fam == "GMRF" or order == 1) and not (bc == "neumann" and N - order < 1)]
+    for bc, order in combos:
+        S = _mrf_reference(fam, pd, N, bc, order)
+        tol = S["tol"]
         for gname, geom in geoms:
-            for lkind, larg, lref in loc_forms:
+            for lkind, larg, lcond, lref, lbase in loc_forms:
                 rfs = {}
-                for hyper in (hyper_f, float(hyper_i)):
-                    rf = []
-                    for x in pts:
-                        r = x - lref
-                        if fam == "GMRF":
-                            rf.append(0.5 * (rank_ref * (math.log(hyper) - LOG2PI) + ld_ref) - 0.5 * hyper * float(r @ P @ r))
-                        elif fam == "LMRF":
-                            rf.append(float(np.sum(-np.log(2 * hyper) - np.abs(D @ r) / hyper)))
-                        else:
-                            rf.append(float(np.sum(np.log(hyper / np.pi) - np.log((D @ r) ** 2 + hyper ** 2))))
-                    rfs[hyper] = np.array(rf)
-                for hform in hyp_forms:
-                    hyper = hyper_i if hform.startswith("int") else hyper_f
-                    rf = rfs[float(hyper)]
+                for hform, harg, hcond, hyper, hbase in hyp_forms:
+                    # quick: at most one of the two parameters in a non-base scalar-like form, or both in the same one
+                    if not (lbase or hbase or allforms or lkind.split(":")[-1] == hform.split(":")[-1]):
+                        continue
+                    if hyper not in rfs:
+                        rfs[hyper] = _mrf_ref_values(fam, S, hyper, lref, pts)
+                    rf = rfs[hyper]
                     fac = {"obtained": "direct", "origin": "direct", "bc": bc, "order": str(order), "loc": lkind, "hyper": hform, "geometry": gname}
                     kwargs = {"bc_type": bc, "geometry": geom if geom is not None else cuqi.geometry.Image2D((N, N))}
                     if fam == "GMRF":
                         kwargs["order"] = order
                     cond = {}
-                    if lkind == "callable":
+                    if lcond is not None:
                         kwargs[locname] = (lambda mu: mu)
-                        cond["mu"] = np.array(lref)
+                        cond["mu"] = lcond
                     else:
                         kwargs[locname] = larg
-                    if hform == "float":
-                        kwargs[hypname] = hyper
-                    elif hform == "int":
-                        kwargs[hypname] = int(hyper)
-                    elif hform in ("array1", "int-array1"):
-                        kwargs[hypname] = np.array([hyper])
-                    else:
+                    if hcond is not None:
                         kwargs[hypname] = (lambda d: d)
-                        cond["d"] = hyper
+                        cond["d"] = hcond
+                    else:
+                        kwargs[hypname] = harg
                     kwargs["name"] = "x"
                     res.state("%s/%d/%s/%s/%s" % (bc, order, gname, lkind, hform))
                     res.transitions += 1
@@ -1607,6 +1811,91 @@ def _eval_mrf(cell, res):
                             res.state("%s/%d/%s/%s/%s/%s" % (bc, order, gname, lkind, hform, origin))
                             res.outcomes.add("%s:origin=%s:offset=%s" % (fam, origin, "none" if offset is None else "nonzero" if abs(offset) > 1e-6 else "zero"))
                             _mrf_config(res, tally, dict(fac, obtained=_obtained(origin), origin=origin), fam, None, obj, {}, pts, rf, tol, locname, offset)
+    tally.flush()
+    _mrf_history(cuqi, cls, res, cell, combos, lvec, hyper_f)
+
+
+def _mrf_history(cuqi, cls, res, cell, combos, lvec, hyper_f):
+    """Facet process history: the object under test and a sibling of the SAME family and dimension but other hidden
+    structure (1-D on N*N nodes <-> 2-D on N x N, other boundary condition, other order, other hyper-parameter, other
+    location) are built in one process, in both orders; the first is used before the second is built; afterwards
+    BOTH must show the documented density of their own configuration at every point."""
+    fam, pd, N, k = (cell[x] for x in ("family", "pd", "N", "cat"))
+    dim = N if pd == 1 else N * N
+    tally = _Tally(res, fam, "")
+    locname = "mean" if fam == "GMRF" else "location"
+    hypname = "prec" if fam == "GMRF" else "scale"
+    pts = [np.zeros(dim)] + [np.eye(dim)[:, i] for i in range(dim)] + [refs.dyadic_vec(dim, k), refs.dyadic_vec(dim, k + 3)]
+    root = int(round(math.sqrt(N)))
+    structs = {}
+
+    def build(conf):
+        pd_, N_, bc, order, loc, hyper = conf
+        kwargs = {"bc_type": bc, "geometry": N_ if pd_ == 1 else cuqi.geometry.Image2D((N_, N_)), locname: loc.copy(), hypname: hyper}
+        if fam == "GMRF":
+            kwargs["order"] = order
+        m = cls(**kwargs)
+        if m.dim != dim:
+            raise ValueError("dimension %r" % (m.dim,))
+        return m
+
+    def reference(conf):
+        pd_, N_, bc, order, loc, hyper = conf
+        if (pd_, N_, bc, order) not in structs:
+            structs[(pd_, N_, bc, order)] = _mrf_reference(fam, pd_, N_, bc, order)
+        S = structs[(pd_, N_, bc, order)]
+        return _mrf_ref_values(fam, S, hyper, loc, pts), S["tol"]
+
+    valid = lambda pd_, N_, bc, order: (fam == "GMRF" or order == 1) and (bc, order) in MRF_COMBOS and not (bc == "neumann" and N_ - order < 1)
+    for bc, order in combos:
+        target = (pd, N, bc, order, lvec, hyper_f)
+        sibs = []
+        if pd == 2:
+            sibs.append(("physical-dim", (1, N * N, bc, order, lvec, hyper_f)))
+        elif root * root == N and root >= 2:
+            sibs.append(("physical-dim", (2, root, bc, order, lvec, hyper_f)))
+        for bc2 in ("zero", "neumann", "periodic"):
+            if bc2 != bc and valid(pd, N, bc2, order):
+                sibs.append(("bc", (pd, N, bc2, order, lvec, hyper_f)))
+        for order2 in (0, 1, 2):
+            if fam == "GMRF" and order2 != order and valid(pd, N, bc, order2):
+                sibs.append(("order", (pd, N, bc, order2, lvec, hyper_f)))
+        sibs.append(("hyper-parameter", (pd, N, bc, order, lvec, 2.0 * hyper_f)))
+        sibs.append(("location", (pd, N, bc, order, np.zeros(dim), hyper_f)))
+        sibs = [(kind, conf) for kind, conf in sibs if valid(*conf[:4])]
+        for skind, sib in sibs:
+            for built in ("sibling-first", "target-first"):
+                pair = [("sibling", sib), ("target", target)] if built == "sibling-first" else [("target", target), ("sibling", sib)]
+                res.state("history/%s/%d/%s/%s" % (bc, order, skind, built))
+                fac = {"bc": bc, "order": str(order), "sibling": skind, "built": built}
+                objs = []
+                try:
+                    for role, conf in pair:
+                        res.transitions += 3
+                        m = build(conf)
+                        m.logpdf(pts[-1]), m.logd(pts[-2])        # use the object before the next one exists
+                        objs.append((role, conf, m))
+                except Exception as e:
+                    res.refused += 1
+                    res.outcomes.add("%s:history-refused:%s:%s" % (fam, skind, type(e).__name__))
+                    continue
+                bad = None
+                for role, conf, m in reversed(objs):       # the object built last first, then the earlier one again
+                    rf, tol = reference(conf)
+                    lp = []
+                    for x in pts:
+                        st, v = _call(res, m.logpdf, x)
+                        lp.append(v if st == "ok" else np.nan)
+                    lp = np.array(lp)
+                    if not close(lp, rf, tol):
+                        j = int(np.argmax(np.abs(np.where(np.isfinite(lp), lp, 1e300) - rf)))
+                        bad = ("%s built %s a %s with another %s in the same process: logpdf = %r, documented density of the differences "
+                               "of x-%s gives %r" % (fam, "after" if m is objs[-1][2] else "before", fam, skind, lp[j], locname, rf[j]), role, pts[j])
+                        break
+                if bad is None:
+                    tally.ok("logpdf-with-sibling", fac)
+                else:
+                    tally.fail("logpdf-with-sibling", fac, bad[0], wrong_object=bad[1], x=bad[2])
     tally.flush()
 
 
